@@ -310,7 +310,7 @@ void ICACHE_FLASH_ATTR supla_esp_parse_proto_var(TrivialHttpParserVars *pVars,
       char pro[3] = {'p', 'r', 'o'};
 
       if (len - a >= 4 && pdata[a + 3] == '=') {
-        if (memcmp(pro, &pdata[a], 3) == 0) {
+        if (memcmp(pro, &pdata[a], 3) == 0 && len - a >= 5) {
           pVars->current_var = VAR_PRO;
           pVars->buff_size = 12;
           pVars->pbuff = pVars->intval;
